@@ -49,7 +49,8 @@ def gen_source_package(rng, idx):
     for suffix, cat in [("", "binary"), ("-libs", "binary"), ("-common", "binary"), ("-debuginfo", "debug"), ("-debugsource", "debug")]:
         if suffix == "" or rng.random() < 0.5:
             subs.append(({"name": name + suffix, "epoch": epoch if rng.random() < 0.9 else epoch + 1, "version": version,
-                          "release": release, "arch": rng.choice(["x86_64", "noarch", "i686", "aarch64", "ppc64le"])}, cat))
+                          "release": release, "arch": rng.choice(["x86_64", "noarch", "i686", "aarch64", "ppc64le", "armhfp", "s390x"] +
+                                                                 [rng.choice(domains.BINARY_ARCHES)])}, cat))
     return {"src": src, "subs": subs}
 
 
